@@ -499,19 +499,31 @@ def tsText (e : Int) : String :=
   let k := (e + 15).toNat
   s!"{10 ^ (k % 3)}:" ++ (["FemtoSeconds", "PicoSeconds", "NanoSeconds", "MicroSeconds", "MilliSeconds", "Seconds"].getD (k / 3) "?")
 
-def renderFst (d : Denotation) (e : Int) : Option String :=
-  let div := 10 ^ (e + 15).toNat
-  (treeS (fstOps d) (fun i => showChanges (fstChanges (d.changes.getD i [])))).map fun t =>
-    t ++ "|tt=" ++ natList (d.times.map (· / div)) ++ "|ts=" ++ tsText e
+/-- specification of repeated block-boundary times (C02: the table is the file's own time chain): position `p` of the
+distinct times appears once more per repetition; a change recorded at position `i` is reported at the FIRST entry holding
+its time, i.e. at `i` plus the number of repetitions before it; re-writing a current value is not a change -/
+def dupShift (dups : List Nat) (i : Nat) : Nat := i + (dups.filter (· < i)).length
 
-def specFst (design exp : String) : String :=
-  match parseDesign design, exp.toInt? with
-  | some (items, w), some e =>
+def dupChain (times : List Nat) (dups : List Nat) : List Nat :=
+  (List.range times.length).flatMap fun i => List.replicate (1 + (dups.filter (· = i)).length) (times.getD i 0)
+
+def renderFst (d : Denotation) (e : Int) (dups : List Nat := []) : Option String :=
+  let div := 10 ^ (e + 15).toNat
+  (treeS (fstOps d) (fun i => showChanges ((fstChanges (d.changes.getD i [])).map fun c => (dupShift dups c.1, c.2)))).map fun t =>
+    t ++ "|tt=" ++ natList (dupChain (d.times.map (· / div)) dups) ++ "|ts=" ++ tsText e
+
+def parseDupPositions (s : String) : Option (List Nat) :=
+  if s = "" ∨ s = "-" then some [] else
+  (s.splitOn ",").mapM fun t => (if t.endsWith "e" then (t.dropEnd 1).toString else t).toNat?
+
+def specFst (design exp : String) (dupsTxt : String := "") : String :=
+  match parseDesign design, exp.toInt?, parseDupPositions dupsTxt with
+  | some (items, w), some e, some dups =>
     if e < -15 ∨ e > 0 then "-" else
-    match (denote items w).bind (fun d => renderFst d e) with
+    match (denote items w).bind (fun d => renderFst d e dups) with
     | none => "-"
     | some s => s
-  | _, _ => "-"
+  | _, _, _ => "-"
 
 /-- the observation of a design's denotation -/
 def observe (d : Denotation) : Option String :=
